@@ -179,6 +179,20 @@ class Verifier(ExprMixin, StmtMixin, CallMixin, LibMixin, SpecMixin):
             keys[id(n)] = "%s#%d" % (kind, cnt[kind])
         return keys
 
+    def anchor_ghost(self, fdef, specs):
+        """ghost_after = [(statement text, ordinal, ghost code)]: anchored on the real statement whose
+        unparsed text matches; an anchor matching no statement is a checker error (exit 3)."""
+        out = {}
+        stmts = [n for n in ast.walk(fdef) if isinstance(n, ast.stmt)]
+        stmts.sort(key=lambda n: (n.lineno, n.col_offset))
+        for pattern, ordinal, code in specs:
+            want = ast.unparse(ast.parse(pattern).body[0])
+            hits = [n for n in stmts if ast.unparse(n) == want]
+            if len(hits) < ordinal:
+                raise VCError("ghost anchor %r #%d not found in %s" % (pattern, ordinal, fdef.name))
+            out[id(hits[ordinal - 1])] = code
+        return out
+
     # ------------------------------------------------------------ obligations
     def oblige(self, st, kind, node, goal, note):
         if self.spec:
@@ -193,7 +207,11 @@ class Verifier(ExprMixin, StmtMixin, CallMixin, LibMixin, SpecMixin):
         if z3.is_true(g):
             o.verdict, o.backend, o.ms, o.model = "unsat", "simplifier", 0.0, None
         else:
-            r = solve.prove(st.pc, goal, self.timeout_ms)
+            # once something in this function failed, later obligations get a short budget (they are often
+            # consequences of the same defect and only cost time); verdicts stay sat/unsat/unknown
+            r = solve.prove(st.pc, goal, 2000 if self.degraded else self.timeout_ms, external=not self.degraded)
+            if r["verdict"] != "unsat":
+                self.degraded = True
             o.verdict, o.backend, o.ms = r["verdict"], r["backend"], r["ms"]
             o.model = self.model_input(r["model"]) if r.get("model") is not None else None
             if o.verdict == "unknown":
@@ -271,12 +289,15 @@ class Verifier(ExprMixin, StmtMixin, CallMixin, LibMixin, SpecMixin):
         self.loops_cut, self.raise_paths = [], []
         self.spec, self.assuming, self.fsafe = False, False, bool(self.contract.get("fsafe"))
         self.npaths, self.cur_line = 0, 0
+        self.ghost_after_map = {}
+        self.degraded = False
         self.sym_consts = {}
         res = dict(function=qn, variant=variant, error=None)
         try:
             mod, fdef = self.lookup_function(qn)
             self.mod = mod
             self.loop_keys = self.number_loops(fdef)
+            self.ghost_after_map = self.anchor_ghost(fdef, self.contract.get("ghost_after") or [])
             res["source_sha"] = hashlib.sha256(ast.unparse(fdef).encode()).hexdigest()[:16]
             res["lines"] = [fdef.lineno, fdef.end_lineno]
             st = State()
